@@ -2,7 +2,7 @@
 """prints the markdown table of seeded changes (seeded/*/meta.json) for DESIGN.md"""
 import glob, json, os, re
 rows = []
-for d in sorted(glob.glob('/verif/seeded/c*_*')):
+for d in sorted(glob.glob('/verif/seeded/c*_*')) + sorted(glob.glob('/verif/seeded/r2_*')):
     try:
         m = json.load(open(os.path.join(d, 'meta.json')))
     except Exception as e:
@@ -23,7 +23,8 @@ for d in sorted(glob.glob('/verif/seeded/c*_*')):
         if mm and r.get('exit') == 1:
             claim = mm.group(1)
             break
-    rows.append('| %s | %s | %s | %s | %s | %s |' % (os.path.basename(d), m.get('breaks_property'), first, ', '.join(caught) or '-', claim, ', '.join(missed) or '-'))
+    tier = m.get('tier', 'quick')
+    rows.append('| %s | %s | %s | %s | %s | %s |' % (os.path.basename(d), m.get('breaks_property'), first, (', '.join(caught) + (' (' + tier + ')' if tier != 'quick' else '')) or '-', claim, (', '.join(missed) or '-') + ((' — ' + m['note']) if m.get('note') else '')))
 print('| seeded change | property | what (from the author\'s notes) | quick checks that fire | first claim | quick checks run that stay silent |')
 print('|---|---|---|---|---|---|')
 print('\n'.join(rows))
